@@ -144,3 +144,59 @@ func VerifC15Copies() {
 	}
 	vReach("end")
 }
+
+// VerifC15Async: background handlers start whenever the runtime gets round to them - possibly
+// after the event loop has finished with their event and the reader is already parsing the
+// next line. The line a background handler receives is still the event it was registered
+// for: verb, arguments and raw text of ITS line. Real Connect / recv / runLoop; the next line
+// arrives (fed by a foreground handler of the first one) before the background handler runs.
+func VerifC15Async() {
+	vSetOpt("schedExplore", 1)
+	vSetOpt("maxSwitches", vParam("SW", 1))
+	vYieldKinds("yield")
+	cfg := NewConfig("me")
+	cfg.Server, cfg.Proxy, cfg.PingFreq, cfg.Flood = "srv:1", "vtest://p", 0, true
+	t1, t2 := vStr("text1", 2), vStr("text2", 2)
+	for _, b := range []byte{t1[0], t1[1], t2[0], t2[1]} {
+		vAssume(b < 0x80 && b > ' ' && b != ':' && b != 1)
+	}
+	line1, line2 := ":u!i@h PRIVMSG #c :"+t1, ":v!j@g NOTICE #d :"+t2
+	w := vNewLiveWire(":srv 001 me :Welcome\r\n" + line1 + "\r\n")
+	vInstallDialer(&vDialer{wire: w})
+	conn := Client(cfg)
+	var mu sync.Mutex
+	fed := false
+	conn.HandleFunc("PRIVMSG", func(c *Conn, l *Line) {
+		mu.Lock()
+		if !fed {
+			fed = true
+			w.feed(line2 + "\r\n") // the server's next line is on its way while this event is still being handled
+		}
+		mu.Unlock()
+	})
+	var got []*Line
+	keep := HandlerFunc(func(c *Conn, l *Line) { mu.Lock(); got = append(got, l); mu.Unlock() })
+	conn.HandleBG("PRIVMSG", keep)
+	conn.HandleBG("NOTICE", keep)
+	err := conn.Connect()
+	vAssume(err == nil)
+	vRunPending()
+	mu.Lock()
+	vAssert(len(got) == 2, "async:each-background-handler-invoked-once")
+	n1, n2 := 0, 0
+	for _, l := range got {
+		if l.Raw == line1 {
+			n1++
+			vAssert(l.Cmd == "PRIVMSG" && l.Nick == "u" && len(l.Args) == 2 && l.Args[0] == "#c" && l.Args[1] == t1, "async:background-line-equals-its-event")
+		}
+		if l.Raw == line2 {
+			n2++
+			vAssert(l.Cmd == "NOTICE" && l.Nick == "v" && len(l.Args) == 2 && l.Args[0] == "#d" && l.Args[1] == t2, "async:background-line-equals-its-event")
+		}
+	}
+	vAssert(n1 == 1 && n2 == 1, "async:background-line-equals-its-event")
+	mu.Unlock()
+	conn.Close()
+	vRunPending()
+	vReach("end")
+}
